@@ -49,6 +49,7 @@ type NodeSpec struct {
 	Subject  int               `json:"subject"`           // -1 = none
 	AType    string            `json:"atype,omitempty"`
 	Ann      map[string]string `json:"ann,omitempty"`
+	Alg      string            `json:"alg,omitempty"`      // blob: digest algorithm (default sha256)
 	Title    string            `json:"title,omitempty"`    // blob: org.opencontainers.image.title on its descriptor
 	Platform string            `json:"platform,omitempty"` // manifest: os/arch advertised in index entries and config
 }
@@ -203,6 +204,9 @@ func (gs *GraphSpec) Build() *Graph {
 			panic("bad kind " + ns.Kind)
 		}
 		n.Desc = ocispec.Descriptor{MediaType: mt, Digest: digest.FromBytes(n.Data), Size: int64(len(n.Data))}
+		if ns.Kind == "blob" && ns.Alg == "sha512" {
+			n.Desc.Digest = digest.SHA512.FromBytes(n.Data)
+		}
 		if ns.Kind == "blob" && ns.Title != "" {
 			n.Desc.Annotations = map[string]string{ocispec.AnnotationTitle: ns.Title}
 		}
@@ -290,6 +294,7 @@ type GraphOpts struct {
 	NoArtifact bool
 	OneDigest  bool // all digests distinct (stores keyed by digest only)
 	AliasNames bool // with Titles: some blobs share a file name (different content under one name)
+	SHA512     bool // some blobs are addressed by sha512
 }
 
 var aTypes = []string{"application/vnd.example.sbom", "application/vnd.example.sig", "application/vnd.test+type", ""}
@@ -356,6 +361,9 @@ func GenGraph(r *Rand, o GraphOpts) *GraphSpec {
 			if dup {
 				ns.Data += fmt.Sprintf("-u%d", i)
 			}
+		}
+		if o.SHA512 && r.Chance(0.12) {
+			ns.Alg = "sha512"
 		}
 		blobs = append(blobs, add(ns))
 	}
